@@ -101,7 +101,10 @@ def main():
                 f.write(task)
     if "signal" in script:
         rec("end", code=None, signal=script["signal"])
-        signal.signal(script["signal"], signal.SIG_DFL)
+        try:
+            signal.signal(script["signal"], signal.SIG_DFL)
+        except (OSError, ValueError):
+            pass  # SIGKILL / SIGSTOP cannot be (and need not be) reset
         os.kill(os.getpid(), script["signal"])
         time.sleep(5)
     code = int(script.get("exit", 0))
